@@ -205,6 +205,9 @@ class Model:
             out.append('</%s>' % n.tag)
 
 
+VIA = [0]
+
+
 def run_real(src, env, T, **cfg):
     from chameleon import PageTemplate
     log = []
@@ -215,8 +218,22 @@ def run_real(src, env, T, **cfg):
     def tr(msgid, domain=None, mapping=None, context=None, target_language=None, default=None):
         log.append((msgid, default, dict(mapping) if mapping else None, domain, context, target_language))
         return T(msgid, default, mapping)
+
+    class FalsyTranslator(list):
+        """a recording translator that is a (still empty, hence falsy) container"""
+        def __call__(self, *a, **kw):
+            return tr(*a, **kw)
+    VIA[0] += 1
+    via = VIA[0] % 3
     try:
-        return PageTemplate(src, translate=tr, **cfg)(v=env['v'], lang=env['lang'], **render_kw), log
+        if via == 0:
+            return PageTemplate(src, translate=tr, **cfg)(v=env['v'], lang=env['lang'], **render_kw), log
+        # the translation function given per rendering wins over the template's own
+        def wrong(*a, **kw):
+            log.append(('TEMPLATE-LEVEL TRANSLATE USED',) + a)
+            return 'WRONG'
+        return PageTemplate(src, translate=wrong, **cfg)(v=env['v'], lang=env['lang'],
+                                                         translate=tr if via == 1 else FalsyTranslator(), **render_kw), log
     except Exception as e:
         return 'RAISED %s %s' % (type(e).__name__, str(e).split('\n')[0][:120]), log
 
@@ -310,7 +327,10 @@ def layer_implicit(ctx, n):
     for case in range(n):
         texts = [rng.choice(['Hello  world', ' padded ', 'x', '\n  multi\n  line ', 'é']) for _ in range(rng.randint(1, 3))]
         attrs = rng.choice([None, 'title', 'TITLE', 'alt'])
-        src = '<div%s>' % (' %s="Tip  text"' % attrs if attrs else '')
+        aval, aval_r = rng.choice([('Tip  text', 'Tip  text'), ('Tip ${v}', 'Tip V'), ('${v}', 'V')])
+        explicit = rng.choice([None, None, '', ' tid']) if attrs else None
+        src = '<div%s%s>' % (' %s="%s"' % (attrs, aval) if attrs else '',
+                             ' i18n:attributes="%s%s"' % (attrs, explicit) if explicit is not None else '')
         for i, t in enumerate(texts):
             src += t + '<b/>'
         src += 'tail ${v}<i>${v}</i></div>'
@@ -324,11 +344,21 @@ def layer_implicit(ctx, n):
         want = []
         out = '<div'
         if attrs:
-            if impl_a and attrs.lower() in impl_a:
-                want.append(('Tip  text', 'Tip  text', None, None, None, None))
-                out += ' %s="%s"' % (attrs, T('Tip  text', 'Tip  text', None))
+            if explicit is not None:
+                # listed in i18n:attributes: exactly one call, with the interpolated value as default (and as id
+                # when none is given), whether or not the attribute is also configured as implicit
+                call = ('tid' if explicit else aval_r, aval_r, None, None, None, None)
+                want.append(call)
+                out += ' %s="%s"' % (attrs, T(call[0], call[1], None))
+            elif impl_a and attrs.lower() in impl_a and aval != '${v}':
+                if '${' in aval:
+                    want.append((aval, None, {'v': 'V'}, None, None, None))
+                    out += ' %s="%s"' % (attrs, T(aval, None, {'v': 'V'}))
+                else:
+                    want.append((aval, aval, None, None, None, None))
+                    out += ' %s="%s"' % (attrs, T(aval, aval, None))
             else:
-                out += ' %s="Tip  text"' % attrs
+                out += ' %s="%s"' % (attrs, aval_r)
         out += '>'
         for i, t in enumerate(texts):
             if impl_t and t.strip():
@@ -349,7 +379,7 @@ def layer_implicit(ctx, n):
         out += '<i>V</i></div>'
         got = run_real(src, {'v': 'V', 'lang': None}, T, **cfg)
         ctx.mon('implicit-layer-compared')
-        ctx.case(key=('implicit', impl_t, tuple(impl_a or ()), attrs, len(texts)), nontrivial=bool(want))
+        ctx.case(key=('implicit', impl_t, tuple(impl_a or ()), attrs, aval, explicit, len(texts)), nontrivial=bool(want))
         if got != (out, want):
             ctx.violation('implicit-translation', 'template %r config %r\n  real  %r\n  model %r' % (src, cfg, got, (out, want)),
                           {'kind': 'implicit', 'src': src, 'cfg': repr(cfg)})
